@@ -29,7 +29,7 @@ BOUNDARY = [0x00, 0x1f, 0x20, 0x24, 0x25, 0x2a, 0x2b, 0x2d, 0x2e, 0x2f, 0x30, 0x
 ALPHA = ['0', '9', 'A', 'Z', ' ', ':', 'a', '\xe9', 'ｱ', '点', '漢', 'д', '€', '书', '\x00', '\n']
 
 REP_CONTENTS = ['0123456789', 'HELLO WORLD', 'hello world', 'h\xe9llo', '点漢', '€ uro', '书读', 42,
-                b'\x00\xff\x80', b'\x93\x5f\xe4\xaa', ('12', 'AB', 'cd'), (('点', 'kanji'), ('x', 'byte', 'utf-8'), 7)]
+                b'\x00\xff\x80', b'\x93\x5f\xe4\xaa', ('12', 'AB', 'cd'), (('点', 8), ('x', 4, 'utf-8'), 7)]
 OPT_DOMAINS = [
     ('error', [None, 'L', 'M', 'Q', 'H']),
     ('version', [None, 'M1', 'M2', 'M3', 'M4', 1, 2, 7, 10, 27, 40]),
@@ -40,7 +40,7 @@ OPT_DOMAINS = [
     ('micro', [None, True, False]),
     ('boost_error', [True, False]),
 ]
-PARTS = ['1', '12', '123', 'A', 'AB', 'ABC', 'a', '点', b'\x81\x40', 7, ('x', 'byte', 'utf-8'), ('\xe9', None, 'latin1')]
+PARTS = ['1', '12', '123', 'A', 'AB', 'ABC', 'a', '点', b'\x81\x40', 7, ('x', 4, 'utf-8'), ('\xe9', None, 'latin1')]
 
 
 def deviations(domains, k):
